@@ -954,46 +954,60 @@ fn word(data: &[u8], i: usize) -> U256 {
 /// The precompile set used by the generators.
 /// Per-invocation log of facade calls made by the test precompiles: (static context?, list of
 /// (operation: 0 balance, 1 sload, 2 set_balance, 3 sstore; result: 0 ok, 1 halt, 2 fatal)).
-pub static FACADE_LOG: std::sync::Mutex<Vec<(bool, Vec<(u8, u8)>)>> = std::sync::Mutex::new(Vec::new());
+pub static FACADE_LOG: std::sync::Mutex<Vec<(bool, Vec<(u8, u8, u8, u8)>)>> = std::sync::Mutex::new(Vec::new());
 
 /// Forwards to the real facade and records what each call returned.
 struct Probe<'a, 'b> {
     input: &'a mut grevm::ParallelPrecompileInput<'b>,
-    rec: Vec<(u8, u8)>,
+    /// (operation, result kind, cold flag: 0 warm / 1 cold / 2 unknown, index of the address)
+    rec: Vec<(u8, u8, u8, u8)>,
+    addrs: Vec<Address>,
     is_static: bool,
 }
 
 impl<'a, 'b> Probe<'a, 'b> {
     fn new(input: &'a mut grevm::ParallelPrecompileInput<'b>) -> Self {
         let is_static = input.is_static();
-        Self { input, rec: Vec::new(), is_static }
+        Self { input, rec: Vec::new(), addrs: Vec::new(), is_static }
     }
-    fn note<T>(&mut self, op: u8, r: &Result<T, ParallelPrecompileError>) {
+    fn note<T>(&mut self, op: u8, a: Address, cold: Option<bool>, r: &Result<T, ParallelPrecompileError>) {
         let k = match r {
             Ok(_) => 0,
             Err(ParallelPrecompileError::Halt(_)) => 1,
             Err(ParallelPrecompileError::Fatal(_)) => 2,
         };
-        self.rec.push((op, k));
+        let idx = match self.addrs.iter().position(|x| *x == a) {
+            Some(i) => i,
+            None => {
+                self.addrs.push(a);
+                self.addrs.len() - 1
+            }
+        };
+        self.rec.push((op, k, cold.map_or(2, |c| c as u8), idx as u8));
     }
     fn balance(&mut self, a: Address) -> Result<U256, ParallelPrecompileError> {
-        let r = self.input.state().balance(a).map(|l| l.data);
-        self.note(0, &r);
+        let r = self.input.state().balance(a);
+        let cold = r.as_ref().ok().map(|l| l.is_cold);
+        let r = r.map(|l| l.data);
+        self.note(0, a, cold, &r);
         r
     }
     fn sload(&mut self, a: Address, k: U256) -> Result<U256, ParallelPrecompileError> {
+        // the cold flag of a storage load is the slot's, not the account's: not logged
         let r = self.input.state().sload(a, k).map(|l| l.data);
-        self.note(1, &r);
+        self.note(1, a, None, &r);
         r
     }
     fn set_balance(&mut self, a: Address, v: U256) -> Result<(), ParallelPrecompileError> {
-        let r = self.input.state().set_balance(a, v).map(|_| ());
-        self.note(2, &r);
+        let r = self.input.state().set_balance(a, v);
+        let cold = r.as_ref().ok().map(|l| l.is_cold);
+        let r = r.map(|_| ());
+        self.note(2, a, cold, &r);
         r
     }
     fn sstore(&mut self, a: Address, k: U256, v: U256) -> Result<(), ParallelPrecompileError> {
         let r = self.input.state().sstore(a, k, v).map(|_| ());
-        self.note(3, &r);
+        self.note(3, a, None, &r);
         r
     }
 }
@@ -1079,6 +1093,11 @@ pub fn standard_precompiles() -> Vec<(Address, DynParallelPrecompile)> {
             let mut st = Probe::new(input);
             let r = st.input.reservoir();
             let b = st.balance(contract(41))?;
+            // a second read in the same invocation: the journal must already hold the account
+            let again = st.balance(contract(41))?;
+            if again != b {
+                return Err(ParallelPrecompileError::Fatal(PrecompileError::Fatal("two facade reads of one account differ".into())));
+            }
             st.sstore(holder(), U256::from(6u64), b)?;
             ok(r, 30)
         })),
